@@ -21,7 +21,7 @@ def live_order(built):
     return [rev[id(e)] for e in built.net.elements]
 
 
-def arg_groups(desc, order, vals, fixed=(), scaled=None):
+def arg_groups(desc, order, vals, fixed=(), scaled=None, tied=()):
     """fixed: (element id, variable) pairs that were supplied as numbers to the symbolic step: they are
     not arguments of the function."""
     lay = var_layout(desc)
@@ -34,6 +34,8 @@ def arg_groups(desc, order, vals, fixed=(), scaled=None):
                     continue
                 v = vals[eid][name]
                 v = list(v) if isinstance(v, list) else [v]
+                if (eid, name) in tied:
+                    v = v[:1]  # the step was given repmat(u, n, 1): the function's argument is the scalar u
                 if scaled and (eid, name) in scaled:
                     # the step was given  a + b * symbol : the function's argument is the symbol
                     a_, b_ = scaled[(eid, name)]
@@ -43,10 +45,10 @@ def arg_groups(desc, order, vals, fixed=(), scaled=None):
     return groups, byname
 
 
-def build_args(desc, order, vals, compact, params=None, fixed=(), scaled=None):
+def build_args(desc, order, vals, compact, params=None, fixed=(), scaled=None, tied=()):
     import casadi as cs
 
-    groups, byname = arg_groups(desc, order, vals, fixed, scaled)
+    groups, byname = arg_groups(desc, order, vals, fixed, scaled, tied)
     G3 = ("states", "actions", "disturbances")
     if compact <= 0:
         args = [cs.DM(v) for grp in G3 for _, _, v in groups[grp]]
@@ -68,9 +70,9 @@ def build_args(desc, order, vals, compact, params=None, fixed=(), scaled=None):
     return args, names, groups, byname
 
 
-def call_positional(F, desc, order, vals, compact, more_out=False, params=None, fixed=(), scaled=None):
+def call_positional(F, desc, order, vals, compact, more_out=False, params=None, fixed=(), scaled=None, tied=()):
     """Returns (x_next {id:{name:list}}, q {link:list} | None, q_o {origin:float} | None)."""
-    args, names, groups, byname = build_args(desc, order, vals, compact, params, fixed, scaled)
+    args, names, groups, byname = build_args(desc, order, vals, compact, params, fixed, scaled, tied)
     out = F(*args)
     out = list(out) if isinstance(out, (list, tuple)) else [out]
     out = [np.asarray(o, dtype=float).ravel().tolist() for o in out]
